@@ -181,6 +181,167 @@ Example c38_pem_premises_satisfiable :
   (forall c : N, (fun b => match b with [n] => Some n | _ => None end) ((fun c => [c]) c) = Some c).
 Proof. reflexivity. Qed.
 
+(* ---- Stats payloads (every member, not only Type / Kind / enums) ----
+   The JSON shape of each Stats type is the table Gen/GoStats.v, regenerated
+   from the struct definitions of stats.go by tools/statsgen on every run;
+   Model/SerialStats.v codes any such shape the way encoding/json does.
+   Assumed contract of encoding/json + strconv on primitives (the two
+   premises): the literal written for an integer, resp. for a finite float64
+   (F is the type of finite float64 values), parses back to it.  Strings and
+   booleans are carried by the tree (text layer, c38_json_text_partial);
+   omitempty is modelled, not assumed.
+   Domain: [has_type] (integers within their width, enum members within the
+   const block, maps as key-sorted lists), [own_tag] (the type's own tag, and
+   the kind the dispatch needs).  Guard [lossless]: (a) no enum member at an
+   Unknown constant its decoder rejects; (b) no omitempty member that is empty
+   but not the zero value; (c) no pointer to a value that prints as null.
+   (b) and (c) are losses of encoding/json itself that no Stats type of
+   stats.go can exhibit today (omitempty sits on strings and on one pointer to
+   a struct); (a) is the recorded ICECandidateType finding. *)
+From Verif Require Import Model.SerialShape Model.SerialStats.
+From Verif Require Proofs.SerialStats.
+Theorem c38_stats_roundtrip :
+  forall (num F : Type) (num_of_int : Z -> num) (num_of_flt : F -> num)
+         (int_of_num : num -> option Z) (flt_of_num : num -> option F)
+         (fzero : F) (fis_zero : F -> bool),
+  (forall z, int_of_num (num_of_int z) = Some z) ->
+  (forall f, flt_of_num (num_of_flt f) = Some f) ->
+  forall t v,
+    has_type F (stats_fty t) v -> own_tag F t v ->
+    lossless F fzero fis_zero (stats_fty t) v ->
+    exists j, marshal_stats num F num_of_int num_of_flt fis_zero t v = Ok j /\
+              unmarshal_stats num F int_of_num flt_of_num fzero j = Ok (t, v).
+Proof. exact SerialStats.stats_payload_roundtrip. Qed.
+Print Assumptions c38_stats_roundtrip.
+
+(* for the shapes stats.go has today, losses (b) and (c) cannot occur
+   (omitempty sits only on members whose empty value is their zero value, no
+   pointer points to a slice, map or pointer: c38_stats_shapes_plain, checked
+   on the generated table), so the guard is clause (a) alone: no enum member
+   at a rejected Unknown constant *)
+Theorem c38_stats_roundtrip_enum_guard :
+  forall (num F : Type) (num_of_int : Z -> num) (num_of_flt : F -> num)
+         (int_of_num : num -> option Z) (flt_of_num : num -> option F)
+         (fzero : F) (fis_zero : F -> bool),
+  (forall z, int_of_num (num_of_int z) = Some z) ->
+  (forall f, flt_of_num (num_of_flt f) = Some f) ->
+  forall t v,
+    has_type F (stats_fty t) v -> own_tag F t v -> enum_ok F (stats_fty t) v ->
+    exists j, marshal_stats num F num_of_int num_of_flt fis_zero t v = Ok j /\
+              unmarshal_stats num F int_of_num flt_of_num fzero j = Ok (t, v).
+Proof. exact SerialStats.stats_payload_roundtrip_enum. Qed.
+Print Assumptions c38_stats_roundtrip_enum_guard.
+
+Theorem c38_stats_shapes_plain :
+  forallb (fun t => SerialStats.plain_ty (stats_fty t)) all_stats_ty = true.
+Proof. exact SerialStats.stats_shapes_plain. Qed.
+Print Assumptions c38_stats_shapes_plain.
+
+(* and clause (a) is necessary: a Stats value with an enum member (top level,
+   no omitempty - where all enum members of stats.go sit) at a rejected
+   Unknown constant does not come back, whatever else it holds *)
+Theorem c38_stats_enum_guard_is_necessary :
+  forall (num F : Type) (num_of_int : Z -> num) (num_of_flt : F -> num)
+         (int_of_num : num -> option Z) (flt_of_num : num -> option F)
+         (fzero : F) (fis_zero : F -> bool) t vs j,
+    bad_enum_member F (shape_of t) vs ->
+    marshal_stats num F num_of_int num_of_flt fis_zero t (GStruct vs) = Ok j ->
+    unmarshal_stats num F int_of_num flt_of_num fzero j <> Ok (t, GStruct vs).
+Proof. exact SerialStats.stats_bad_enum_fails. Qed.
+Print Assumptions c38_stats_enum_guard_is_necessary.
+
+(* the same for any struct shape whose member names are distinct up to case
+   (SessionDescription and ICECandidateInit are instances) *)
+Theorem c38_struct_roundtrip :
+  forall (num F : Type) (num_of_int : Z -> num) (num_of_flt : F -> num)
+         (int_of_num : num -> option Z) (flt_of_num : num -> option F)
+         (fzero : F) (fis_zero : F -> bool),
+  (forall z, int_of_num (num_of_int z) = Some z) ->
+  (forall f, flt_of_num (num_of_flt f) = Some f) ->
+  forall t v,
+    SerialStats.wf_ty t = true -> has_type F t v -> lossless F fzero fis_zero t v ->
+    exists j, marshal num F num_of_int num_of_flt fis_zero t v = Ok j /\
+              unmarshal num F int_of_num flt_of_num fzero t j = Ok v.
+Proof. exact SerialStats.marshal_unmarshal. Qed.
+Print Assumptions c38_struct_roundtrip.
+
+(* the guard cannot be dropped: ICECandidateStats{Type: "remote-candidate"}
+   (CandidateType 0) is in the domain, is excluded by the guard, and fails *)
+Theorem c38_stats_roundtrip_refuted :
+  has_type Z (stats_fty ICECandidateStats) SerialStats.cand0 /\
+  own_tag Z ICECandidateStats SerialStats.cand0 /\
+  ~ lossless Z c_fzero c_fis_zero (stats_fty ICECandidateStats) SerialStats.cand0 /\
+  c_stats_roundtrip ICECandidateStats SerialStats.cand0 = Err "unknown-candidate-type".
+Proof.
+  exact (conj SerialStats.cand0_typed (conj SerialStats.cand0_own
+          (conj SerialStats.cand0_excluded SerialStats.cand0_fails))).
+Qed.
+Print Assumptions c38_stats_roundtrip_refuted.
+
+(* every generated Stats shape is well formed and has the members the
+   dispatch reads *)
+Theorem c38_stats_table_checked :
+  forallb SerialStats.stats_table_ok all_stats_ty = true.
+Proof. exact SerialStats.stats_table_checked. Qed.
+Print Assumptions c38_stats_table_checked.
+
+(* the decoder on shapes no encoder writes: a member whose name equals no
+   member name of the struct, even up to (ASCII) case, is skipped - value,
+   saved error and abort are those of the object without it.  (The other
+   rules - duplicates, null, wrong kinds, number ranges, saved vs aborting
+   errors - are compared with real json.Unmarshal by the djson suite.) *)
+Theorem c38_unknown_member_ignored :
+  forall (num F : Type) (int_of_num : num -> option Z) (flt_of_num : num -> option F) (fzero : F)
+         fs ms1 k j ms2,
+  (forall fd, In fd fs -> Common.SerialUtil.eqfold k (fd_json fd) = false) ->
+  unmarshal num F int_of_num flt_of_num fzero (TStruct fs) (JvObj (ms1 ++ (k, j) :: ms2)%list)
+  = unmarshal num F int_of_num flt_of_num fzero (TStruct fs) (JvObj (ms1 ++ ms2)%list).
+Proof. exact SerialStats.unknown_member_ignored. Qed.
+Print Assumptions c38_unknown_member_ignored.
+
+(* premises of c38_stats_roundtrip are satisfiable on a non-trivial value: a
+   TransportStats with ICERole controlled, BytesSent 2^64-1 *)
+Example c38_stats_roundtrip_nontrivial :
+  has_type Z (stats_fty TransportStats) SerialStats.transport1 /\
+  own_tag Z TransportStats SerialStats.transport1 /\
+  lossless Z c_fzero c_fis_zero (stats_fty TransportStats) SerialStats.transport1 /\
+  c_stats_roundtrip TransportStats SerialStats.transport1 = Ok (TransportStats, SerialStats.transport1).
+Proof. exact SerialStats.transport1_ok. Qed.
+
+(* SessionDescription and ICECandidateInit are instances of
+   c38_struct_roundtrip (their generated shapes are well formed) ... *)
+From Verif Require Gen.GoStats.
+Theorem c38_sd_ci_shapes_wf :
+  SerialStats.wf_ty (TStruct GoStats.shape_SessionDescription) = true /\
+  SerialStats.wf_ty (TStruct GoStats.shape_ICECandidateInit) = true.
+Proof. split; vm_compute; reflexivity. Qed.
+Print Assumptions c38_sd_ci_shapes_wf.
+
+(* ... and their decoders on trees no encoder writes (djson suite), worked:
+   names and the SDPType value up to case, an unknown member, a duplicate, a
+   later null; null / a number into SDPType.UnmarshalJSON; a saved type error
+   overridden by an abort; a line index out of range or with a fraction *)
+Example c38_decoder_arbitrary_shapes :
+  let sd := c_unmarshal (TStruct GoStats.shape_SessionDescription) in
+  let ci := c_unmarshal (TStruct GoStats.shape_ICECandidateInit) in
+  let n z : jv cnum := JvNum (Some z, None) in
+  sd (JvObj [("TYPE", JvStr "OFFER"); ("x", n 1); ("sdp", JvStr "a"); ("Sdp", JvNull)])
+    = Ok (GStruct [GInt 1; GStr "a"]) /\
+  sd (JvObj [("type", JvStr "offer"); ("type", JvStr "answer")]) = Ok (GStruct [GInt 3; GStr ""]) /\
+  sd JvNull = Ok (GStruct [GInt 0; GStr ""]) /\
+  sd (JvObj [("type", JvNull)]) = Err "unknown-type" /\
+  sd (JvObj [("type", n 1)]) = Err "json-shape" /\
+  sd (JvObj [("sdp", n 5); ("type", JvStr "bogus")]) = Err "unknown-type" /\
+  sd (JvObj [("sdp", n 5); ("type", JvStr "offer")]) = Err "json-shape" /\
+  sd (JvArr []) = Err "json-shape" /\
+  ci (JvObj [("sdpMLineIndex", n 65535); ("SDPMID", JvStr "0")])
+    = Ok (GStruct [GStr ""; GPtr (Some (GStr "0")); GPtr (Some (GInt 65535)); GPtr None]) /\
+  ci (JvObj [("sdpMLineIndex", n 65536)]) = Err "json-shape" /\
+  ci (JvObj [("sdpMLineIndex", JvNum (None, Some 4607182418800017408))]) = Err "json-shape" /\
+  ci (JvObj [("sdpMLineIndex", n 3); ("sdpMLineIndex", JvNull)])
+    = Ok (GStruct [GStr ""; GPtr None; GPtr None; GPtr None]).
+Proof. vm_compute. repeat split; reflexivity. Qed.
+
 (* ---- second tie to the source: the translated enum tables ----
    Gen/GoSerial.v is regenerated by tools/go2coq before every run of this
    check from the enum files themselves: every String() method and every
